@@ -294,6 +294,9 @@ bool DTDScanner::expandPERef( const   bool    scanExternal
             return false;
         }
 
+        // parameter entity expansions count against the SecurityManager's limit
+        fScanner->countEntityExpansion();
+
         //
         //  If the caller wants us to scan the external entity, then lets
         //  do that now.
@@ -364,6 +367,8 @@ bool DTDScanner::expandPERef( const   bool    scanExternal
         //
         if (!fReaderMgr->pushReader(valueReader, decl))
             fScanner->emitError(XMLErrs::RecursiveEntity, decl->getName());
+        else
+            fScanner->countEntityExpansion();
     }
 
     return true;
@@ -2060,6 +2065,9 @@ DTDScanner::scanEntityRef(XMLCh& firstCh, XMLCh& secondCh, bool& escaped)
             return EntityExp_Failed;
         }
 
+        // count this expansion against the SecurityManager's limit
+        fScanner->countEntityExpansion();
+
         // If it starts with the XML string, then parse a text decl
         if (fScanner->checkXMLDecl(true))
             scanTextDecl();
@@ -2090,6 +2098,8 @@ DTDScanner::scanEntityRef(XMLCh& firstCh, XMLCh& secondCh, bool& escaped)
         //
         if (!fReaderMgr->pushReader(valueReader, decl))
             fScanner->emitError(XMLErrs::RecursiveEntity, decl->getName());
+        else
+            fScanner->countEntityExpansion();
     }
 
     return EntityExp_Pushed;
